@@ -291,12 +291,14 @@ fn deep() -> Vec<(String, u64, u64, String)> {
 /// never another value and never a crash.
 fn limit_sweep(sh: &mut Shard) {
     use crate::outcome::run_text;
-    for nlocals in 0..=4usize {
+    // (0..4 locals, and frames of 7 / 10 / 16 / 40 locals whose LAST slot is used by every kind of access —
+    // plain, fused with a literal — at the deepest level and at every level on the way back)
+    for nlocals in [0usize, 1, 2, 3, 4, 7, 10, 16, 40] {
         for pending in 0..=2usize {
             if !sh.mine() {
                 continue;
             }
-            let names = ["a", "b", "c", "d"];
+            let names: Vec<String> = (0..nlocals).map(|l| if l < 4 { ["a", "b", "c", "d"][l].to_string() } else { format!("v{l}") }).collect();
             let mut body = String::new();
             let mut prev = "n".to_string();
             for l in 0..nlocals {
@@ -305,8 +307,8 @@ fn limit_sweep(sh: &mut Shard) {
             }
             // at the bottom: the sum of all locals (n = 0 there: 1 + 2 + ... ); on the way back: + 1 per level through the last local
             let sum_bottom: i64 = (1..=nlocals as i64).sum();
-            let all: String = if nlocals == 0 { "0".into() } else { names[..nlocals].join(" + ") };
-            let step = if nlocals == 0 { "1".to_string() } else { format!("{} - {} + 1", names[nlocals - 1], names[nlocals - 1]) };
+            let all: String = if nlocals == 0 { "0".into() } else { format!("{} + ({last} + 1) - {last} - 1", names[..nlocals].join(" + "), last = names[nlocals - 1]) };
+            let step = if nlocals == 0 { "1".to_string() } else if nlocals % 2 == 0 { format!("{} - {} + 1", names[nlocals - 1], names[nlocals - 1]) } else { format!("({} + 1) - {}", names[nlocals - 1], names[nlocals - 1]) };
             let def = format!("functie f(n) {{ {body}als n == 0 {{ antwoord {all} }} antwoord f(n - 1) + {step} }}");
             let call = |d: i64| match pending {
                 0 => format!("{def} f({d})"),
